@@ -37,6 +37,10 @@ def build_msg(spec, delta):
         return mido.MetaMessage('text', text=f't{spec[1]}', time=delta)
     if k == 'eot':
         return mido.MetaMessage('end_of_track', time=delta)
+    if k == 'sx_open':
+        return mido.Message('sysex', data=(spec[1] % 128, 5), time=delta)
+    if k == 'sx_cont':
+        return mido.Message('sysex', data=(spec[1] % 128,), time=delta)
     if k == 'tsig':
         return mido.MetaMessage('time_signature', numerator=1 + spec[1] % 12, denominator=2 ** (spec[1] % 6), time=delta)
     if k == 'umeta':
@@ -59,6 +63,10 @@ def encode_event(spec, delta):
         return (d, 'meta', 0x01, list(f't{spec[1]}'.encode('ascii')), 0)
     if k == 'eot':
         return (d, 'meta', 0x2F, [], 0)
+    if k == 'sx_open':
+        return (d, 'sysex', 0xF0, [spec[1] % 128, 5], 0)            # a sysex packet without its terminator ...
+    if k == 'sx_cont':
+        return (d, 'sysex', 0xF7, [spec[1] % 128, 0xF7], 0)         # ... continued by an F7 packet after some ticks
     if k == 'tsig':
         return (d, 'meta', 0x58, [1 + spec[1] % 12, spec[1] % 6, 24, 8], 0)
     if k == 'umeta':
@@ -169,6 +177,11 @@ class Playback(BaseEngine):
                     spec = ['note', counter]
                 counter += 1
                 tr.append([delta] + spec)
+                if rng.random() < 0.04:
+                    # a system exclusive message sent in two timed packets (F0 ... / F7 ... F7)
+                    tr.append([pick(rng, DELTAS), 'sx_open', counter])
+                    tr.append([pick(rng, (1, 10, 96, 480)), 'sx_cont', counter])
+                    counter += 1
             if rng.random() < 0.7:
                 tr.append([pick(rng, DELTAS), 'eot'])
             tracks.append(tr)
@@ -202,7 +215,7 @@ class Playback(BaseEngine):
         second = None
         if rng.random() < 0.35:
             second = {'mutate_yielded': rng.random() < 0.7,
-                      'edit': pick(rng, (None, 'tpb', 'tpb', 'tempo', 'delta')),
+                      'edit': pick(rng, (None, 'tpb', 'tpb', 'tempo', 'delta', 'export', 'export')),
                       'tpb': pick(rng, TPBS), 'value': pick(rng, (1, 250000, 1000000, 16777215)),
                       'pick': rng.randrange(1000)}
         return {'prop': prop, 'type': ftype, 'tpb': tpb, 'tracks': tracks, 'clock': clock,
@@ -324,6 +337,12 @@ class Playback(BaseEngine):
             log.ev('type2-refused')
             return
         model = self._model(plan, model_tracks)
+        # how the packets of a split sysex are presented as messages is not C13's business: with such packets in
+        # a loaded file only the other messages are compared, the packets' ticks still count
+        self._loose_sysex = bool(plan.get('loaded')) and any(e[1] in ('sx_open', 'sx_cont') for tr in plan['tracks']
+                                                             for e in tr)
+        if self._loose_sysex:
+            stats['fault:split_sysex_packets_in_file'] += 1
         seq = self._check_iter_length(mf, model, tracks, snapshot, log, sim, 'first')
         self._rest(plan, mf, model, tracks, seq, log, stats, cov)
 
@@ -333,10 +352,30 @@ class Playback(BaseEngine):
             seq = list(mf)
         except Exception as e:
             raise Violation(f'raised:{type(e).__name__}@iter', f'iterating the file raised {e!r}')
-        if len(seq) != len(model):
+        pairs = list(zip(seq, model))
+        if getattr(self, '_loose_sysex', False):
+            acc = 0.0
+            timed = []
+            for m in seq:
+                acc += m.time
+                if m.type != 'sysex':
+                    timed.append((m, acc))
+            refs = [e for e in model if e[0].type != 'sysex']
+            if len(timed) != len(refs):
+                raise Violation('iter:count', f'iteration yielded {len(timed)} non-sysex messages, merged model has '
+                                              f'{len(refs)}')
+            for j, ((m, at), (ref, tick, s)) in enumerate(zip(timed, refs)):
+                if strip_time(m) != strip_time(ref):
+                    raise Violation('iter:order-or-content', f'message #{j} is {m!r}, model says {ref!r} at tick {tick}')
+                fs = float(s)
+                if abs(at - fs) > 1e-9 * max(1.0, abs(fs)) + 1e-12:
+                    raise Violation('iter:time', f'message #{j} ({m.type}, tick {tick}): cumulative time {at!r}, '
+                                                 f'tempo-map integral {fs!r}')
+            pairs = []
+        elif len(seq) != len(model):
             raise Violation('iter:count', f'iteration yielded {len(seq)} messages, merged model has {len(model)}')
         cum = 0.0
-        for j, (m, (ref, tick, s)) in enumerate(zip(seq, model)):
+        for j, (m, (ref, tick, s)) in enumerate(pairs):
             if strip_time(m) != strip_time(ref):
                 raise Violation('iter:order-or-content', f'message #{j} is {m!r}, model says {ref!r} at tick {tick}')
             if m is ref:
@@ -410,7 +449,30 @@ class Playback(BaseEngine):
                     except Exception:
                         pass
                 stats['fault:consumer_mutates_yielded'] += 1
-            if sec['edit'] == 'tpb':
+            if sec['edit'] == 'export':
+                # the application converts the messages to its own representation (dict(), copy(), bytes()) and
+                # works on that - absolute times, another tempo; the file itself was not edited
+                plan2 = plan
+                for tr in tracks:
+                    acc = 0
+                    for m in tr:
+                        try:
+                            d = m.dict()
+                            acc += d['time']
+                            d['time'] = acc + 1000
+                            if 'tempo' in d:
+                                d['tempo'] = 1
+                            if d.get('type') == 'sysex' and isinstance(d.get('data'), list):
+                                d['data'].append(0)
+                            c = m.copy()
+                            if not type(c).__name__.startswith('Frozen'):
+                                c.time = acc + 2000
+                            b = m.bytes()
+                            b.append(0)
+                        except Exception as e:
+                            raise Violation('export-raised', f'dict()/copy()/bytes() of {m!r} raised {e!r}')
+                stats['fault:messages_exported_and_export_edited'] += 1
+            elif sec['edit'] == 'tpb':
                 mf.ticks_per_beat = sec['tpb']
                 plan2 = dict(plan, tpb=sec['tpb'])
             else:
@@ -428,6 +490,8 @@ class Playback(BaseEngine):
                     tracks[ti][i] = m
             snapshot2 = [[(m.type, m.time) for m in tr] for tr in tracks]
             model2 = self._model(plan2, tracks)
+            if sec['edit'] == 'export':
+                model2 = model          # nothing was edited: the file is what it was
             sim2 = [0.0]
             try:
                 self._check_iter_length(mf, model2, tracks, snapshot2, log, sim2, 'second')
